@@ -65,8 +65,8 @@ POOL = 3
 
 TRIM_OPS = {"set", "overlay", "underlay", "foverlay", "funderlay", "bin", "sc", "rsc", "rw"}   # writes and arithmetic operators
 FUNCTIONAL = {"new", "init", "call", "fshift", "idx", "foverlay", "funderlay", "hstack", "bin", "sc", "rsc", "un", "copy",
-              "stat", "mov", "fill"}
-METHODS = {"set", "shift", "clip", "overlay", "underlay", "trim", "empty", "mstat", "mmov", "mfill", "rw"}
+              "stat", "mov", "fill", "extrap"}
+METHODS = {"set", "shift", "clip", "overlay", "underlay", "trim", "empty", "mstat", "mmov", "mfill", "rw", "mextrap"}
 STATS = ["sum", "prod", "mean", "min", "max", "nansum", "nanprod", "nanmean", "nanmin", "nanmax"]
 MOVS = {"sum": "mov_sum", "avg": "mov_avg", "prod": "mov_prod"}
 FILLS = ["constant", "next", "previous", "nearest", "linear"]
@@ -302,6 +302,13 @@ def exec_op(pool, ws):
         if op == "fill":
             pool[I(1)] = ir.fill_missing(pool[I(2)], method, marg, span=span); return "", None, I(1)
         pool[I(1)].fill_missing(method, marg, span=span); return "", I(1), None
+    if op in ("extrap", "mextrap"):
+        off = 1 if op == "extrap" else 0
+        coeffs = tuple(float(Fraction(c)) for c in split_ne(ws[2 + off], ","))
+        c0, d = float(Fraction(ws[3 + off])), parse_dates(ws[4 + off])
+        if op == "extrap":
+            pool[I(1)] = ir.extrapolate(pool[I(2)], coeffs, impl_dates(d), intercept=c0); return "", None, I(1)
+        pool[I(1)].extrapolate(coeffs, impl_dates(d), intercept=c0); return "", I(1), None
     if op == "rw":
         test, c, newv = TESTS[ws[2]], (0.0 if ws[2] == "isnan" else cellf(ws[3])), cellf(ws[4])
         with np.errstate(invalid="ignore"):
@@ -745,6 +752,29 @@ def oracle_step(oracle, reps, ws):
                 if val is not None:
                     m[(t, v)] = val
         put(k, m, src["nv"])
+    elif op in ("extrap", "mextrap"):
+        off = 1 if op == "extrap" else 0
+        k, i = (I(1), I(2)) if op == "extrap" else (I(1), I(1))
+        coeffs = [Fraction(c) for c in split_ne(ws[2 + off], ",")]
+        c0, d = Fraction(ws[3 + off]), parse_dates(ws[4 + off])
+        rep, src = reps[i], oracle[i]
+        m = dict(src["m"])
+        if rep[1] is not None:
+            dfreq, serials = o_dates(d, rep)
+            if serials:
+                if dfreq != rep[0] or not coeffs or src["nv"] == 0:
+                    raise Undefined
+                if serials != list(range(serials[0], serials[0] + len(serials))):
+                    raise Undefined                  # the statement speaks about a span t = 1, …, T of consecutive periods
+                # x_t = rho_1 x_{t-1} + … + rho_p x_{t-p} + c on the span, lags taken from the map (extrapolated cells included)
+                for v in range(src["nv"]):
+                    for t in serials:
+                        lags = [m.get((t - j, v)) for j in range(1, len(coeffs) + 1)]
+                        if any(x is None for x in lags):
+                            m.pop((t, v), None)
+                        else:
+                            m[(t, v)] = sum((r * x for r, x in zip(coeffs, lags)), Fraction(0)) + c0
+        put(k, m, src["nv"])
     elif op == "rw":
         i = I(1); rep, src = reps[i], oracle[i]
         tname = ws[2]
@@ -781,6 +811,8 @@ TOL = 1e-9
 
 def is_t_op(o: str) -> bool:
     ws = o.split()
+    if ws and ws[0] in ("extrap", "mextrap"):
+        return True                                  # scipy.signal.lfilter: floating point, order of operations not modelled
     return bool(ws) and ws[0] in ("stat", "mstat", "mov", "mmov", "fill", "mfill") and any(w in T_OPS for w in ws[1:])
 
 
@@ -883,7 +915,7 @@ def run_line(line: str, ctx: Ctx | None = None, check: bool = True):
         loose = loose or is_t_op(o)
         name = ws[0] if ws else "?"
         base_name = {"foverlay": "overlay", "funderlay": "underlay", "fshift": "shift", "idx": "shift", "rsc": "sc", "cmp": "bin",
-                     "mstat": "stat", "mmov": "mov", "mfill": "fill"}.get(name, name)
+                     "mstat": "stat", "mmov": "mov", "mfill": "fill", "mextrap": "extrap"}.get(name, name)
         tainted = set()
         old = list(pool)
         snaps = [(x.start, x.data.copy()) for x in old]
@@ -1129,7 +1161,9 @@ def pow2(n) -> bool:
     return n >= 1 and (n & (n - 1)) == 0
 
 
-OP_WEIGHTS = [("stat", 5), ("mov", 4), ("fillop", 4), ("rw", 2), ("set", 14), ("get", 5), ("gfu", 2), ("call", 3), ("shift", 3), ("fshift", 2), ("idx", 2), ("clip", 4),
+AR_COEFFS = ["1/2", "-1/2", "1/4", "3/4", "1", "-1/4", "5/4", "-1", "1/8", "0"]
+
+OP_WEIGHTS = [("extrapop", 4), ("stat", 5), ("mov", 4), ("fillop", 4), ("rw", 2), ("set", 14), ("get", 5), ("gfu", 2), ("call", 3), ("shift", 3), ("fshift", 2), ("idx", 2), ("clip", 4),
               ("overlay", 4), ("underlay", 3), ("foverlay", 2), ("funderlay", 2), ("hstack", 3), ("bin", 8), ("cmp", 2),
               ("sc", 3), ("rsc", 2), ("un", 2), ("trim", 1), ("empty", 1), ("copy", 2), ("init", 3), ("new", 1), ("kwshift", 2)]
 
@@ -1194,6 +1228,23 @@ def gen_op(rng, pool, f, malformed):
             a = gen_period_near(rng, x, g0)
             d = f"sp={ptok(g0, a)},{ptok(g0, a + rng.randint(0, 7))},1"
         return f"fill {k} {i} {method} {arg} {d}" if rng.chance(0.7) else f"mfill {i} {method} {arg} {d}"
+    if name == "extrapop":
+        if not small_enough(x):
+            return f"copy {k} {i}"
+        rep = reported(x)
+        order = rng.weighted([(1, 3), (2, 4), (3, 3), (4, 2)])
+        coeffs = ",".join(rng.choice(AR_COEFFS) for _ in range(order))
+        c0 = rat_of_float(rng.dyadic(-2, 2, 1)) if rng.chance(0.5) else "0"
+        g0 = rep[0] if (rep[0] is not None and not malformed) else g
+        if rep[1] is None:
+            a = BASE[g0]
+        else:
+            end = rep[1] + rep[2] - 1
+            # mostly right after the data or inside it (enough history), sometimes before the start or after a gap
+            a = rng.weighted([(end + 1, 6), (end, 2), (end - 1, 2), (rep[1] + order, 2), (rep[1] + 1, 1), (rep[1] - 1, 0.5), (end + 3, 0.5)])
+        n = rng.randint(1, 5)
+        d = f"sp={ptok(g0, a)},{ptok(g0, a + n - 1)},1" if rng.chance(0.93) else gen_dates(rng, x, f, malformed)
+        return f"extrap {k} {i} {coeffs} {c0} {d}" if rng.chance(0.7) else f"mextrap {i} {coeffs} {c0} {d}"
     if name == "rw":
         t = rng.choice(list(TESTS))
         return f"rw {i} {t} {rat_of_float(rng.dyadic(-6, 6, 1))} {gen_cell(rng, 0.4)}"
@@ -1318,7 +1369,9 @@ def directed_lines(ctx: Ctx):
     heads = ["3 | init 0 Q 8080 2 nan,1:2,nan:nan,nan:nan,nan:6,nan:nan,8",
              "3 | init 0 Q 8081 1 1:nan:3:nan:nan:nan:7:8 | clip 0 Q8080 Q8086",
              "3 | init 0 M 24240 3 1,2,3:4,nan,6:nan,nan,nan:-1,-2,-4 | clip 0 M24241 M24244",
-             "3 | new 0 Q 2", "3 | init 0 Q 8080 2 1,2 | empty 0", "3 | init 0 I 0 4 1,2,3,4:nan,2,nan,4"]
+             "3 | new 0 Q 2", "3 | init 0 Q 8080 2 1,2 | empty 0", "3 | init 0 I 0 4 1,2,3,4:nan,2,nan,4",
+             "3 | init 0 Q 8080 3 1,-2,8:2,3,nan:4,-5,6:8,7,5:-3,11,4:6,13,3", "3 | init 0 M 24240 2 1,3:2,-1:-4,5:8,2:16,-7",
+             "3 | init 0 I 0 1 1:2:3:5:8"]
     for h in heads:
         for fn in STATS:
             lines.append(f"{h} | stat 1 {fn} 0 | mstat 0 {fn}")
@@ -1328,6 +1381,14 @@ def directed_lines(ctx: Ctx):
             arg = "7" if m == "constant" else "-"
             lines.append(f"{h} | fill 1 0 {m} {arg} all | fill 2 0 {m} {arg} sp=Q8078,Q8089,1 | fill 2 0 {m} {arg} sp=Q8082,Q8084,1 | mfill 0 {m} {arg} all")
         lines.append(f"{h} | fill 1 0 constant nan all | fill 1 0 previous - l=Q8083,Q8081,Q8081,Q8089 | fill 1 0 nearest - sp=Q8089,Q8079,-2")
+        mh = re.search(r"init 0 (\w) (-?\d+) \d+ (\S+)", h)
+        F_, s0, n0 = (mh.group(1), int(mh.group(2)), mh.group(3).count(":") + 1) if mh else ("Q", 8080, 0)
+        sp_ = lambda a, b: f"sp={F_}{s0 + a},{F_}{s0 + b},1"
+        for cs in ("1/2", "1/2,1/4", "1,-1/2,1/4", "0,0,0,1", "3/4,0,-1/4,1/2"):
+            # right after the data, overlapping its end, inside it, before its start, after a gap; method form last
+            lines.append(f"{h} | extrap 1 0 {cs} 0 {sp_(n0, n0 + 3)} | extrap 1 0 {cs} 1/2 {sp_(n0 - 2, n0 + 1)} | extrap 2 0 {cs} 0 {sp_(1, 3)}"
+                         f" | extrap 2 0 {cs} -1 {sp_(-1, 1)} | extrap 2 0 {cs} 1 {sp_(n0 + 2, n0 + 3)} | extrap 2 1 {cs} 0 {sp_(n0 + 4, n0 + 5)}"
+                         f" | mextrap 0 {cs} 1/2 {sp_(n0, n0 + 1)} | extrap 2 0 {cs} 0 sp=Y2020,Y2021,1")
         for t_, c in (("lt", "3"), ("ge", "2"), ("eq", "6"), ("ne", "1"), ("isnan", "0")):
             lines.append(f"{h} | copy 1 0 | rw 1 {t_} {c} nan | copy 1 0 | rw 1 {t_} {c} 5 | rw 0 {t_} {c} -1/2")
     ctx.count("directed_sequences", len(lines))
